@@ -698,3 +698,8 @@ SPECS["C16"]["level_text"] += ("; WRITE-SET CENSUS on every run: all 40 syntacti
                                "plumbing; call-local lists); a site in the tree without a listed reason is reported as UNDECIDED")
 SPECS["C16"]["not_covered"] = ["that each listed memo really is a function of the image bytes alone is argued per site (checks/write_set.json), machine-checked only where the function is under contract",
                                "the .pyx filter classes (C19 covers their reset)"]
+
+# C10: the printed name is a typable path component (no separator, no blank at either end) - make_safe_name proved, no longer assumed
+SPECS["C10"]["contracts"] += ["smpl_extract.structural:Image.make_safe_name"]
+SPECS["C10"]["level_text"] += ("; make_safe_name (every ASCII name): the printed name consists of word characters, blanks and - = : . @ # & + only - it contains no path separator - and has no blank at "
+                               "either end, which is what the parse_path contracts require of printed names (regex sub of `[^class]+|...`: the first alternative wins at every position)")
